@@ -4,7 +4,7 @@ from ..cfront import AnalysisError
 from ..ir import fmt, walk_stmts, walk_expr, stmt_exprs, dotted, sub_blocks
 from .. import sym
 from ..sym import var as V, const as C, add, sub, tmax, tmin
-from ..symexec import Exec, Env, subst_expr, assigned_vars, norm_minmax, fold_bool
+from ..symexec import Exec, Env, subst_expr, assigned_vars, norm_minmax, fold_bool, peval_fields
 from .kern import abstract
 
 DOM = [V('RB'), sub(sub(V('RE'), V('RB')), C(1)), V('CB'), sub(sub(V('CE'), V('CB')), C(1)), sub(V('N'), V('RE')), sub(V('N'), V('CE')),
@@ -296,21 +296,43 @@ def _length_python(ctx, mod, f):
         benv[v] = ('var', v + '@in')
     ex2 = Exec()
     out = ex2.run(loop.body, benv)
-    val = out.get('length')
-    inc = _term(('bin', '-', val, ('var', 'length@in')), amap)
+    acc = _accumulator(out, assigned_vars(loop.body))
+    if acc is None:
+        raise AnalysisError('unrecognised shape: no accumulator in the row loop of _distance_matrix_length')
+    val = out.get(acc)
+    inc = _term(('bin', '-', val, ('var', acc + '@in')), amap)
     want = tmax(C(0), sub(V('CE'), tmax(add(V('r'), C(1)), V('CB'))))
     r = sym.equivalent(inc, want, DOM, box=BOX)
     ctx.check(r[0] == 'equal', 'R-ITER', mod.path, '_distance_matrix_length', 'per-row count (triangular)',
               'the advertised length adds %s for row r; the enumerators produce max(0, ce - max(r + 1, cb)) pairs%s'
               % (sym.show(inc), (' -- differs at %s' % r[1]) if r[0] == 'differ' else ''), loop.line)
-    # rectangular: (re - rb) * (ce - cb)
-    okr = False
-    for s in walk_stmts(f.body):
-        if s.k == 'assign' and s.target == ('var', 'length') and s.value[0] == 'bin' and s.value[1] == '*':
-            t1, t2 = _term(subst_expr(s.value[2], env), amap), _term(subst_expr(s.value[3], env), amap)
-            if {t1, t2} == {sub(V('RE'), V('RB')), sub(V('CE'), V('CB'))}:
-                okr = True
+    # rectangular: (re - rb) * (ce - cb), assigned to the result or returned directly
+    okr = _has_rect_product(f.body, env, amap)
     ctx.check(okr, 'R-ITER', mod.path, '_distance_matrix_length', 'rectangular count', 'a non-triangular block must advertise (re - rb) * (ce - cb) entries', f.line)
+
+
+def _accumulator(out, assigned):
+    """The loop-carried variable that is updated from its own previous value (v = v@in + ...)."""
+    if out is None:
+        return None
+    cands = [v for v in sorted(assigned) if out.get(v) is not None and out[v] != ('var', v + '@in') and any(x == ('var', v + '@in') for x in walk_expr(out[v]))]
+    return cands[0] if len(cands) == 1 else None
+
+
+def _has_rect_product(body, env, amap):
+    for s in walk_stmts(body):
+        v = s.value if s.k in ('assign', 'return') else (s.init if s.k == 'decl' else None)
+        if v is None:
+            continue
+        v = subst_expr(v, env)
+        if v[0] == 'bin' and v[1] == '*':
+            try:
+                t1, t2 = _term(v[2], amap), _term(v[3], amap)
+            except sym.Unsupported:
+                continue
+            if {t1, t2} == {sub(V('RE'), V('RB')), sub(V('CE'), V('CB'))}:
+                return True
+    return False
 
 
 # ------------------------------------------------------------------------------------------ C enumerators
@@ -368,31 +390,56 @@ def rule_iter_c_serial(ctx, m):
     out = ex2.run(loop.body, benv)
     # paths: break when ce <= r (contributes 0 for this and all later rows)
     brk = [e for e in ex2.events if e[0] == 'break']
-    val = out.get('length') if out else None
+    acc = _accumulator(out, assigned_vars(loop.body))
+    val = out.get(acc) if out and acc else None
     ok = False
-    detail = ''
+    detail = 'no accumulator found'
     if val is not None:
-        inc = _term(('bin', '-', val, ('var', 'length@in')), amap)
+        from .kern import _conj
+        inc = _term(('bin', '-', val, ('var', acc + '@in')), amap)
         want = tmax(C(0), sub(V('CE'), tmax(add(V('r'), C(1)), V('CB'))))
-        # on the continuing path ce > r holds
-        dom = DOM + [sub(sub(V('CE'), V('r')), C(1))]
-        r = sym.equivalent(inc, want, dom, box=BOX)
-        ok = r[0] == 'equal'
-        detail = '%s vs %s %s' % (sym.show(inc), sym.show(want), r[1] if r[0] != 'equal' else '')
-        okb = len(brk) == 1 and any(_is_ce_le_r(c, amap) for c in brk[0][1])
-        ok = ok and okb
+        bconj = _conj(brk[0][1]) if len(brk) == 1 else []
+        # the loop may stop only where this and every later row contributes nothing: some conjunct of the break path must be ce <= r
+        okb = len(brk) == 1 and any(_is_ce_le_r(c, amap) for c in bconj)
+        # on the continuing paths at least one conjunct of the break condition is false
+        negs = [n_ for n_ in (_neg_constraint(c, amap) for c in bconj) if n_ is not None]
+        ok = okb and bool(negs)
+        detail = ''
+        for n_ in negs:
+            r = sym.equivalent(inc, want, DOM + [n_], box=BOX)
+            ok = ok and r[0] == 'equal'
+            if r[0] != 'equal':
+                detail = '%s vs %s %s' % (sym.show(inc), sym.show(want), r[1])
+        if not okb:
+            detail = 'the loop stops early on a condition that does not imply ce <= r'
     ctx.check(ok, 'R-ITER', unit.path, 'dtw_distances_length', 'per-row count (triangular)',
               'the advertised length must add max(0, ce - max(r + 1, cb)) per row (and may stop once ce <= r): %s' % detail, loop.line)
-    okr = False
-    for s in walk_stmts(f.body):
-        if s.k == 'assign' and s.target == ('var', 'length') and s.value[0] == 'bin' and s.value[1] == '*':
-            try:
-                t1, t2 = _term(s.value[2], amap), _term(s.value[3], amap)
-            except sym.Unsupported:
-                continue
-            if {t1, t2} == {sub(V('RE'), V('RB')), sub(V('CE'), V('CB'))}:
-                okr = True
+    okr = _has_rect_product(f.body, env, amap)
     ctx.check(okr, 'R-ITER', unit.path, 'dtw_distances_length', 'rectangular count', 'a non-triangular block must advertise (re - rb) * (ce - cb) entries', f.line)
+
+
+def _neg_constraint(c, amap):
+    """Term t with (t >= 0) <=> not c, for an integer comparison c; None when c is not one."""
+    neg = False
+    while c[0] == 'un' and c[1] == 'not':
+        c, neg = c[2], not neg
+    if not (c[0] == 'bin' and c[1] in ('<', '<=', '>', '>=')):
+        return None
+    try:
+        a, b = _term(c[2], amap), _term(c[3], amap)
+    except sym.Unsupported:
+        return None
+    op = c[1]
+    if neg:
+        op = {'<': '>=', '<=': '>', '>': '<=', '>=': '<'}[op]
+    # not (a op b)
+    if op == '<':       # a >= b
+        return sub(a, b)
+    if op == '<=':      # a > b
+        return sub(sub(a, b), C(1))
+    if op == '>':       # a <= b
+        return sub(b, a)
+    return sub(sub(b, a), C(1))     # not (a >= b): a < b
 
 
 def _is_ce_le_r(c, amap):
@@ -507,23 +554,38 @@ def rule_omp(ctx, m):
         if inner is None or inner.k != 'for':
             raise AnalysisError('unrecognised shape: inner loop of region in %s' % fname)
         slot_vars = set()
-        for s in outs:
-            idx = s.target[2]
-            ok = False
-            if idx[0] == 'bin' and idx[1] == '+' and idx[3][0] == 'var':
-                cvar = idx[3][1]
-                X = idx[2]
-                shapes = (('idx', ('var', 'rls'), ('var', loop.var)),)
-                rect = ('bin', '*', ('bin', '-', ('attr', ('var', 'block'), 'ce'), ('attr', ('var', 'block'), 'cb')), ('var', loop.var))
-                cond_triu = _under_triu(loop, s)
-                if X == shapes[0] and cond_triu is True:
-                    ok = True
-                elif X == rect and cond_triu is False:
-                    ok = True
-                slot_vars.add(cvar)
-            ctx.check(ok, 'R-OMP', unit.path, fname, 'output slot %s' % fmt(idx),
-                      'the output subscript must be rls[row] + k (triangular) or (ce - cb) * row + k (rectangular) with k the per-row pair counter; '
-                      'found %s' % fmt(idx), s.line)
+        # the slot of every reachable store, evaluated symbolically for the triangular and the rectangular case
+        pre_env = Exec().run(loop.body[:loop.body.index(inner)], Env())
+        if pre_env is None:
+            raise AnalysisError('unrecognised shape: row body of region in %s leaves before the column loop' % fname)
+        ienv = pre_env.copy()
+        for v in assigned_vars(inner.body) | {inner.var}:
+            ienv[v] = ('var', v)
+        cex = Exec()
+        cex.run(inner.body, ienv)
+        ostores = [e for e in cex.events if e[0] == 'store' and e[2][0] == 'idx' and e[2][1] == ('var', 'output')]
+        blk = ('var', 'block')
+        want_slot = {True: ('idx', ('var', 'rls'), ('var', loop.var)),
+                     False: ('bin', '*', ('bin', '-', ('attr', blk, 'ce'), ('attr', blk, 'cb')), ('var', loop.var))}
+        for triu in (True, False):
+            z = {('block', 'triu'): triu}
+            reach = []
+            for e in ostores:
+                if any(fold_bool(peval_fields(c, z)) == ('bool', False) for c in e[1]):
+                    continue
+                reach.append((peval_fields(e[2][2], z), e[4]))
+            if not reach:
+                ctx.violation('R-OMP', unit.path, fname, 'output store (%s)' % ('triangular' if triu else 'rectangular'), 'no result is stored for this block kind', st.line)
+            for idx, stm in reach:
+                adds = _addends(idx)
+                base_ok = [a for a in adds if _same_product(a, want_slot[triu])]
+                cnts = [a for a in adds if a[0] == 'var' and a[1] in assigned_vars(inner.body) and not _same_product(a, want_slot[triu])]
+                ok = len(adds) == 2 and len(base_ok) == 1 and len(cnts) == 1
+                if ok:
+                    slot_vars.add(cnts[0][1])
+                ctx.check(ok, 'R-OMP', unit.path, fname, 'output slot (%s)' % ('triangular' if triu else 'rectangular'),
+                          'the output subscript must be rls[row] + k (triangular) or (ce - cb) * row + k (rectangular) with k the per-row pair counter; '
+                          'found %s' % fmt(idx), stm.line)
         for cvar in slot_vars:
             ok_priv = cvar in priv
             resets = [s for s in loop.body if s.k == 'assign' and s.target == ('var', cvar) and s.value == ('num', 0)]
@@ -548,8 +610,10 @@ def rule_omp(ctx, m):
         ctx.check(rowv is not None, 'R-OMP', unit.path, fname, 'row index', 'the row series index must be block->rb + iteration index', loop.line)
         lo_e = subst_expr(inner.lo, benv) if inner.lo is not None else benv.get(inner.var)
         hi_e = subst_expr(inner.hi, benv)
-        want_lo = ('cond', ('attr', ('var', 'block'), 'triu'), ('idx', ('var', 'cbs'), ('var', loop.var)), ('attr', ('var', 'block'), 'cb'))
-        ok = norm_minmax(lo_e) == want_lo and hi_e == ('attr', ('var', 'block'), 'ce')
+        lo_n = norm_minmax(lo_e) if lo_e is not None else None
+        ok = lo_n is not None and hi_e == ('attr', ('var', 'block'), 'ce') and \
+            peval_fields(lo_n, {('block', 'triu'): True}) == ('idx', ('var', 'cbs'), ('var', loop.var)) and \
+            peval_fields(lo_n, {('block', 'triu'): False}) == ('attr', ('var', 'block'), 'cb')
         ctx.check(ok, 'R-ITER', unit.path, fname, 'parallel column range',
                   'columns of row k must run from cbs[k] (triangular) / block->cb (rectangular) to block->ce; found [%s, %s)' % (fmt(lo_e)[:100], fmt(hi_e)[:60]), inner.line)
         if rowv:
@@ -617,6 +681,19 @@ def _last_index(t):
     return None
 
 
+def _addends(e):
+    if e[0] == 'bin' and e[1] == '+':
+        return _addends(e[2]) + _addends(e[3])
+    return [e]
+
+
+def _same_product(a, b):
+    """Equality up to the order of the factors of a product."""
+    if a == b:
+        return True
+    return a[0] == 'bin' and a[1] == '*' and b[0] == 'bin' and b[1] == '*' and (a[2], a[3]) == (b[3], b[2])
+
+
 def _under_triu(loop, stmt):
     """True / False when stmt sits in the then / else branch of `if (block->triu)` inside loop; None otherwise."""
     def find(stmts, state):
@@ -678,6 +755,19 @@ def rule_iter_pyx(ctx, m):
     ctx.count('pyx block decoders', len(shapes))
 
 
+def _branch_of(body, stmt):
+    """The innermost if-branch body that contains stmt (None when stmt is in no branch)."""
+    for t in body:
+        for attr in ('then', 'els', 'body'):
+            sub_ = getattr(t, attr, None)
+            if isinstance(sub_, list) and any(x is stmt for x in walk_stmts(sub_)):
+                inner = _branch_of(sub_, stmt)
+                if inner is not None:
+                    return inner
+                return sub_ if t.k == 'if' else None
+    return None
+
+
 def rule_mp_order(ctx, m):
     """Multiprocessing branches: order-preserving pool primitive, and pairs built as (row series, column series)."""
     mod = m.py('dtaidistance.dtw')
@@ -685,30 +775,66 @@ def rule_mp_order(ctx, m):
     if f is None:
         raise AnalysisError('anchor vanished: dtw.distance_matrix')
     n = 0
+    series = f.args[0]
+    # pool objects: `with <...>Pool(...) as X` / `X = <...>Pool(...)`
+    pools = set()
+    for s in walk_stmts(f.body):
+        if s.k == 'with':
+            for ce, tv in s.items:
+                if ce[0] == 'call' and (dotted(ce[1]) or '').split('.')[-1] == 'Pool' and tv is not None and tv[0] == 'var':
+                    pools.add(tv[1])
+        if s.k == 'assign' and s.target[0] == 'var' and s.value[0] == 'call' and (dotted(s.value[1]) or '').split('.')[-1] == 'Pool':
+            pools.add(s.target[1])
+    if not pools:
+        raise AnalysisError('unrecognised shape: distance_matrix creates no multiprocessing pool')
+
+    def work_items(scope, arg):
+        """(loop target, element, iterable) of the work list: a comprehension, or a local list filled by one append loop."""
+        if arg[0] == 'comp' and len(arg[3]) == 1:
+            (tgt, it, conds) = arg[3][0]
+            return (tgt, arg[2], it) if not conds else None
+        if arg[0] == 'var':
+            defs = [t for t in walk_stmts(scope) if t.k == 'assign' and t.target == arg]
+            if len(defs) == 1 and defs[0].value[0] == 'comp':
+                return work_items(scope, defs[0].value)
+            if len(defs) == 1 and defs[0].value == ('list', ()):
+                loops = [t for t in walk_stmts(scope) if t.k == 'foreach' and any(
+                    u.k == 'expr' and u.value[0] == 'call' and u.value[1] == ('attr', arg, 'append') for u in walk_stmts(t.body))]
+                if len(loops) == 1 and len(loops[0].body) == 1:
+                    u = loops[0].body[0]
+                    if u.k == 'expr' and u.value[0] == 'call' and u.value[1] == ('attr', arg, 'append') and len(u.value[2]) == 1:
+                        return (loops[0].target, u.value[2][0], loops[0].iter)
+        return None
+
     for s in walk_stmts(f.body):
         for e in stmt_exprs(s):
             for c in walk_expr(e):
                 if c[0] == 'call' and c[1][0] == 'attr' and c[1][1][0] == 'var' and c[1][2] in ('map', 'imap', 'imap_unordered', 'starmap', 'map_async', 'apply_async', 'starmap_async'):
-                    if c[1][1][1] not in ('p', 'pool'):
+                    if c[1][1][1] not in pools:
                         continue
                     n += 1
                     ctx.check(c[1][2] in ('map', 'starmap'), 'R-ITER', mod.path, 'distance_matrix', 'pool primitive %s' % c[1][2],
                               'results must come back in submission order: Pool.%s does not guarantee that' % c[1][2], s.line)
-                    if len(c[2]) >= 2 and c[2][1][0] == 'comp':
-                        comp = c[2][1]
-                        elt = comp[2]
-                        (tgt, it, conds) = comp[3][0]
-                        # zip(*idxs) yields (row, col); the element must be (s[row], s[col], opts)
-                        ok = False
-                        if tgt[0] == 'tuple' and len(tgt[1]) == 2 and elt[0] == 'tuple' and len(elt[1]) >= 2:
-                            first, second = tgt[1][0], tgt[1][1]
-                            ok = elt[1][0] == ('idx', ('var', 's'), first) and elt[1][1] == ('idx', ('var', 's'), second)
-                        ctx.check(ok, 'R-ITER', mod.path, 'distance_matrix', 'pool site #%d pair order' % n,
-                                  'zip(*idxs) yields (row, column); the work item must be (s[row], s[column], ...) as in the serial enumerator, found element '
-                                  '%s for target %s: the two series are swapped, which changes the result whenever the settings are not symmetric '
-                                  '(per-series psi)' % (fmt(elt)[:60], fmt(tgt)), s.line)
-                    else:
-                        ctx.violation('R-ITER', mod.path, 'distance_matrix', 'pool work list', 'unrecognised work list %s' % fmt(c)[:120], s.line)
+                    scope = _branch_of(f.body, s) or f.body
+                    wi = work_items(scope, c[2][1]) if len(c[2]) >= 2 else None
+                    if wi is None:
+                        ctx.undecided('R-ITER', 'distance_matrix pool site #%d' % n, 'unrecognised work list %s' % fmt(c)[:120])
+                        continue
+                    tgt, elt, it = wi
+                    # the (row, column) index arrays are iterated in parallel; the element must be (s[row], s[col], opts)
+                    ok = False
+                    if tgt[0] == 'tuple' and len(tgt[1]) == 2 and elt[0] == 'tuple' and len(elt[1]) >= 2:
+                        first, second = tgt[1][0], tgt[1][1]
+                        if it[0] == 'call' and dotted(it[1]) == 'zip' and len(it[2]) == 2 and all(a[0] == 'var' for a in it[2]):
+                            # zip(rows, cols): the two arrays unpacked from one call keep the order in which they were unpacked
+                            un = [t for t in walk_stmts(scope) if t.k == 'assign' and t.target[0] == 'tuple' and set(it[2]) <= set(t.target[1])]
+                            if len(un) == 1 and list(un[0].target[1]).index(it[2][0]) > list(un[0].target[1]).index(it[2][1]):
+                                first, second = second, first
+                        ok = elt[1][0] == ('idx', ('var', series), first) and elt[1][1] == ('idx', ('var', series), second)
+                    ctx.check(ok, 'R-ITER', mod.path, 'distance_matrix', 'pool site #%d pair order' % n,
+                              'the index arrays yield (row, column); the work item must be (s[row], s[column], ...) as in the serial enumerator, found element '
+                              '%s for target %s: the two series are swapped, which changes the result whenever the settings are not symmetric '
+                              '(per-series psi)' % (fmt(elt)[:60], fmt(tgt)), s.line)
     # the worker functions unpack the work item (series of the row, series of the column, options) in that order
     workers = 0
     for q in ('_distance_with_params', '_distance_with_params_ndim', '_distance_c_with_params', '_distance_c_with_params_ndim'):
